@@ -65,8 +65,7 @@ def run(ctx):
         "the remote and the buffer are memory filespaces (property C01)",
         "listings are compared as sets with multiplicity (sorted): the order of a directory filled by fshelper.Copy or by "
         "Commit depends on goroutine scheduling / map iteration",
-        "failing directory copies onto existing buffer children and copies with overlapping arguments (KF-C06-7) are not "
-        "generated in bulk; reads between a failed Commit and the next successful one are not compared (`undet`)",
+        "failing directory copies onto existing buffer children are not generated in bulk; reads between a failed Commit and the next successful one are not compared (`undet`)",
     ]
     ctx.trusted_base.append("fsdrv.Ref, the flat reference of the `cache oracle` (direct application), as second opinion "
                             "independent of the Lean model")
